@@ -14,7 +14,9 @@ From SC Require Import Lib.Prelude Lib.Int Lib.Host.
 Record claim := mkClaim {
   k_issuer : addr; k_topic : Z;     (* the id under which the identity stores the claim *)
   c_topic : Z; c_issuer : addr;     (* Claim.topic, Claim.issuer *)
-  c_valid : bool                    (* does its issuer's is_claim_valid accept it (return) or not (panic) *)
+  c_valid : bool                    (* does its issuer's is_claim_valid accept it = return plainly; anything else
+                                       is a refusal: a contract error, a trap, an answered value (try_is_claim_valid
+                                       is then not Ok(Ok(_))), or no contract deployed at the issuer's address *)
 }.
 
 Record iworld := mkIW {
